@@ -350,6 +350,7 @@ var Mutants = map[string][]Mutant{
 		{"vertical fonts written as horizontal", "renderers/pdf/writer.go", `w\.writeFonts\(w\.fontsV, true\)`, `w.writeFonts(w.fontsV, false)`, "E5.fontmaps"},
 	},
 	"C19": {
+		{"viewBox split at single spaces (reverts fix 67b6a25)", "svg.go", `(?s)vals := strings\.FieldsFunc\(attrViewBox, func\(r rune\) bool \{\n[^\n]*\n\t\t\}\)`, "vals := strings.Split(attrViewBox, \" \")", "E11.viewbox-separators"},
 		{"empty attribute value taken for a missing one", "svg.go", `if len\(val\) < 2 \{`, "if len(val) <= 2 {", "E11.empty-value-accepted"},
 		{"alpha of #rgba mixes in the red digit (reverts fix 7fac093)", "colors.go", `a := float64\(h\[3\]\*16\+h\[3\]\) / 255\.0`, "a := float64(h[3]*16+h[0]) / 255.0", "E11.hex-digit-pairs"},
 		{"stroke-linecap butt left out as the default", "svg.go", `if val == "butt" \{\n\t\t\tsvg\.ctx\.SetStrokeCapper\(ButtCap\)\n\t\t\} else if val == "round" \{`, "if val == \"round\" {", "E11.svg-keyword-initial"},
